@@ -75,6 +75,10 @@ Level1 ==
        [] Family = "promo" -> k' \in 1..8        \* file of the pawn
        [] OTHER -> k' = 0
 
+\* sampling hash: the division terms break the arithmetic regularity of idx (every residue class is populated);
+\* used primed as a guard of Level2, so that members outside the sample are not even generated
+Kept == (idx + (idx \div 7) + (idx \div 61) + 5 * k + c) % Sample = Offset % Sample
+
 Level2 ==
   /\ stage = 1 /\ stage' = 2 /\ UNCHANGED <<c, k>>
   /\ CASE Family = "castle" ->
@@ -116,16 +120,15 @@ Level2 ==
               /\ pos' = PromoMember(c, k, ok, pc, sq)
               /\ idx' = ok + 64 * pc + 512 * sq
        [] OTHER -> FALSE
+  /\ Kept'
 
 Next == Level1 \/ Level2
 Spec == Init /\ [][Next]_vars
 
-\* sampling hash: the division terms break the arithmetic regularity of idx (every residue class is populated)
-Kept == (idx + (idx \div 7) + (idx \div 61) + 5 * k + c) % Sample = Offset % Sample
 \* two-ply expectations: after each special move (landing on a corner, castling, en passant, promotion) what the rules
 \* allow the other side
 Then(p) == LET S == {m \in Legal(p) : m[2] \in {1, 8, 57, 64} \/ IsCastle(p, m) \/ IsEpCapture(p, m) \/ m[3] # 0} IN
-           {[m |-> m, legal |-> Legal(Apply(p, m))] : m \in S}
+           {[m |-> m, succ |-> Encode(Apply(p, m)), text |-> MoveText(m), legal |-> Legal(Apply(p, m))] : m \in S}
 \* one line per well-formed member: encoded position and what the rules say
 Emit == (stage = 2 /\ Kept /\ Cardinality(Kings(pos.b, 0)) = 1 /\ Cardinality(Kings(pos.b, 1)) = 1 /\ WellFormed(pos)) =>
           PrintT(<<"FAM", ToJson([pos |-> Encode(pos), legal |-> Legal(pos), caps |-> LegalCaptures(pos),
